@@ -10,6 +10,7 @@ import (
 	"strings"
 	"sync"
 	"testing"
+	"time"
 
 	cpumemtypes "github.com/projecteru2/core/resource/plugins/cpumem/types"
 
@@ -30,12 +31,13 @@ func init() {
 }
 
 type c30Case struct {
-	Count  int        `json:"count"`
-	Stdin  bool       `json:"stdin,omitempty"`
-	Logs   string     `json:"logs"`             // two-lines | empty | error (open fails)
-	Attach string     `json:"attach,omitempty"` // stdin only: ok | error
-	Wait   string     `json:"wait"`             // code0 | code1 | error
-	Fault  *faultSpec `json:"fault,omitempty"`
+	Count   int        `json:"count"`
+	Stdin   bool       `json:"stdin,omitempty"`
+	Logs    string     `json:"logs"`                                      // two-lines | empty | error (open fails)
+	Attach  string     `json:"attach,omitempty"`                          // stdin only: ok | error
+	Wait    string     `json:"wait"`                                      // code0 | code1 | error
+	Stagger bool       `json:"outputs_end_one_after_the_other,omitempty"` // count 2: the second workload's output ends 3 s after the first's
+	Fault   *faultSpec `json:"fault,omitempty"`
 }
 
 type c30Msg struct {
@@ -82,6 +84,9 @@ func c30Cases() []c30Case {
 		for _, logs := range []string{"two-lines", "empty", "error"} {
 			for _, wait := range []string{"code0", "code1", "error"} {
 				out = append(out, c30Case{Count: cnt, Logs: logs, Wait: wait})
+				if cnt == 2 && logs != "error" {
+					out = append(out, c30Case{Count: cnt, Logs: logs, Wait: wait, Stagger: true})
+				}
 			}
 		}
 	}
@@ -109,7 +114,8 @@ func c30Explore(t *testing.T, c *vcore.Ctx) {
 	}
 	b.Restore(snap)
 	pre := b.View(false)
-	c.SetRule("run-and-wait requests: count {1,2} without stdin, count 1 with stdin (input channel gets one line and is closed) x engine scripts: logs {two lines, empty, open fails} x attach {ok, fails} (stdin only) x wait {exit code 0, exit code 1, fails}; every request fault-free, and for representative requests (quick: 3, thorough: all) once per intercepted step (etcd request, engine call, WAL write) of the fault-free run with that step failing; one execution per case in a bubble on a snapshot with one ordinary workload; " +
+	c.SetRule("run-and-wait requests: count {1,2} without stdin, count 1 with stdin (input channel gets one line and is closed) x engine scripts: logs {two lines, empty, open fails} x attach {ok, fails} (stdin only) x wait {exit code 0, exit code 1, fails}, for count 2 also with the second output ending 3 s after the first; every request fault-free, and for representative requests (quick: 3, thorough: all) once per intercepted step (etcd request, engine call, WAL write) of the fault-free run with that step failing; one execution per case in a bubble on a snapshot with one ordinary workload; " +
+		"a failing step that belongs to the cleanup itself (store/engine requests of the removal, WAL commit - outside the statement's engine outcomes) is judged only for stream closure, exit code and other workloads; " +
 		"non-trivial = distinct case in which at least one workload was actually started (so cleanup was owed), faulted cases only when the fault was delivered")
 	c.Assume("etcd is the in-memory model memetcd; engines are the stateful fakev engines; a failing step has no effect, all other steps succeed; the WAL is the real bbolt file, read after the instance is closed")
 	c.Bound("counts", []int{1, 2})
@@ -212,6 +218,9 @@ func c30Exec(t *testing.T, b *world.Backend, snap *world.Snap, cc *c30Case) *c30
 		sc.WaitCode, sc.WaitMsg = 1, "exit 1"
 	case "error":
 		sc.WaitErr = errors.New("fakev: wait failed")
+	}
+	if cc.Stagger {
+		sc.LogStagger = 3 * time.Second
 	}
 	b.Eng.Script = sc
 	defer func() { b.Eng.Script = world.Script{CopyMode: map[string]string{}} }()
@@ -323,16 +332,48 @@ func c30One(t *testing.T, c *vcore.Ctx, b *world.Backend, snap *world.Snap, pre 
 			waited[strings.TrimSuffix(lab[strings.Index(lab, "/")+1:], ")")] = true
 		}
 	}
+	// The statement quantifies over requests and ENGINE OUTCOMES for logs, attach and wait. The
+	// enumeration also fails every other intercepted step once. When such a step belongs to the
+	// cleanup itself (it comes after the point at which the first output ended: the store requests
+	// and the engine call of the removal, the WAL commit), the cleanup cannot be owed any more - no
+	// implementation can remove a record while the store refuses the removal. For those faults only
+	// the clauses that remain meaningful are judged (the stream closes, the exit code is the last
+	// message, other workloads are untouched).
+	cleanupFault := false
+	if cc.Fault != nil {
+		l := cc.Fault.Label
+		if !(strings.HasPrefix(l, "engine.logs(") || strings.HasPrefix(l, "engine.attach(") || strings.HasPrefix(l, "engine.wait(")) {
+			endLabel := "engine.wait("
+			if cc.Logs == "error" {
+				endLabel = "engine.logs("
+			} else if cc.Attach == "error" {
+				endLabel = "engine.attach("
+			}
+			boundary, fidx := -1, -1
+			for i, s := range tr.Steps {
+				if boundary < 0 && strings.HasPrefix(s, endLabel) {
+					boundary = i
+				}
+				if fidx < 0 && s == fmt.Sprintf("%s#%d", cc.Fault.Label, cc.Fault.Occ) {
+					fidx = i
+				}
+			}
+			cleanupFault = boundary >= 0 && fidx > boundary
+		}
+	}
+	if cleanupFault {
+		c.Outcome("a step of the cleanup itself failed: removal and commit not judged")
+	}
 	nLeftRec, nLeftCt := 0, 0
 	for id, w := range post.Workloads {
-		if _, was := pre.Workloads[id]; !was {
+		if _, was := pre.Workloads[id]; !was && !cleanupFault {
 			nLeftRec++
 			viol("workload-left-behind", "after the stream closed workload %s is still recorded on %s", c30Short(id), w.Node)
 		}
 	}
 	preC := containerIDs(pre)
 	for id, ct := range containerIDs(post) {
-		if _, was := preC[id]; !was {
+		if _, was := preC[id]; !was && !cleanupFault {
 			nLeftCt++
 			viol("container-left-behind", "after the stream closed container %s still exists on %s (running=%v, recorded=%v)", c30Short(id), ct.Node, ct.Running, post.Workloads[id] != nil)
 		}
@@ -344,6 +385,9 @@ func c30One(t *testing.T, c *vcore.Ctx, b *world.Backend, snap *world.Snap, pre 
 	}
 	usageOK := true
 	for n := range pre.Nodes {
+		if cleanupFault {
+			break
+		}
 		if nLeftRec == 0 {
 			if d := c30UsageDiff(pre.NodeRes[n], post.NodeRes[n]); d != "" {
 				usageOK = false
@@ -375,7 +419,7 @@ func c30One(t *testing.T, c *vcore.Ctx, b *world.Backend, snap *world.Snap, pre 
 	}
 	nWal := 0
 	for _, e := range wal {
-		if e.Type == "create-lambda" {
+		if e.Type == "create-lambda" && !cleanupFault {
 			nWal++
 			viol("wal-entry-not-committed", "after the stream closed the WAL file still holds %s %s (workload recorded=%v)", e.Key, c30Short(strings.Trim(e.Item, "\"")), post.Workloads[strings.Trim(e.Item, "\"")] != nil)
 		}
